@@ -180,6 +180,7 @@ def handle (c : Case) : Res :=
     (if c.isDouble then qselCase Float c else qselCase Float32 c)
   else
     (if c.ty == 'z' then dropCase (Cx Float) Float true opsC64 c
+     else if c.ty == 'c' then dropCase (Cx Float32) Float32 true opsC32 c
      else if c.isDouble then dropCase Float Float false opsF64 c else dropCase Float32 Float32 false opsF32 c)
 
 end Slu.Drv.IluDrop
